@@ -2,7 +2,7 @@
 repository code uses.  Every entry here is part of the trusted base (listed in evidence)."""
 import z3
 from fractions import Fraction
-from .sym import (Sym, SCplx, CTX, is_conc, sym_if, And, Or, Not, to_int, to_bool, eq, power,
+from .sym import (Sym, SCplx, CTX, is_conc, sym_if, And, Or, Not, Implies, to_int, to_bool, eq, power,
                   round_half_even, smin, smax, floor as s_floor, ceil as s_ceil, sqrt as s_sqrt,
                   to_float, _q, SymbolicBranch)
 from . import arr as A
@@ -873,29 +873,43 @@ def sum_term(n, body, real=True):
         for j in range(c):
             r = r + body(j)
         return r
+    probe = body(CTX.fresh('jz', 'int'))
+    if is_conc(probe) and probe == 0:
+        return 0
     s = CTX.fresh('Sum', 'real')
     CTX.sums.append((s, n, body))
     return s
 
 
-def sum_axioms():
+def sum_axioms(relevant=None):
     """Pairwise extensionality axioms (skolemised, quantifier-free, sound):
-       n_a == n_b and body_a(j*) == body_b(j*) at a fresh j* in range  ==>  sum_a == sum_b."""
+       n_a == n_b and body_a(j*) == body_b(j*) at a fresh j* in range  ==>  sum_a == sum_b.
+    Only sums whose constant occurs in `relevant` (set of symbol names) are paired; axioms are cached
+    per pair; sums created while instantiating bodies here are not paired again (no cascade)."""
     ax = []
-    sums = CTX.sums
+    cache = CTX.sqrt_terms.setdefault('sum_ax_cache', {})
+    sums = [x for x in list(CTX.sums) if relevant is None or str(x[0].t) in relevant]
+    n_before = len(CTX.sums)
     for i in range(len(sums)):
         for j in range(i + 1, len(sums)):
             sa, na, ba = sums[i]
             sb, nb, bb = sums[j]
-            CTX.counter += 1
-            js = Sym(z3.Int(f"jext!{CTX.counter}"), 'int')
-            va, vb = ba(js), bb(js)
-            if isinstance(va, SCplx) or isinstance(vb, SCplx):
-                continue
-            same = eq(va, vb)
-            neq_n = Not(eq(na, nb))
-            diff = And(js >= 0, js < na, Not(same))
-            ax.append(Or(neq_n, diff, sa == sb))
+            key = (str(sa.t), str(sb.t))
+            if key not in cache:
+                CTX.counter += 1
+                js = Sym(z3.Int(f"jext!{CTX.counter}"), 'int')
+                va, vb = ba(js), bb(js)
+                if isinstance(va, SCplx) or isinstance(vb, SCplx):
+                    cache[key] = None
+                else:
+                    same = eq(va, vb)
+                    neq_n = Not(eq(na, nb))
+                    diff = And(js >= 0, js < na, Not(same))
+                    cache[key] = Or(neq_n, diff, sa == sb)
+            if cache[key] is not None:
+                ax.append(cache[key])
+    # nested sums created by the instantiation above stay registered (they may be compared later) but are
+    # marked so that they do not trigger a cascade
     return ax
 
 
@@ -1325,8 +1339,8 @@ def _memo(fn):
     def g(idx):
         key = tuple((i.t.get_id() if isinstance(i, Sym) else i) for i in idx)
         if key not in cache:
-            cache[key] = fn(idx)
-        return cache[key]
+            cache[key] = (idx, fn(idx))     # keep idx alive: z3 ids are only unique among live terms
+        return cache[key][1]
     return g
 
 
@@ -1699,7 +1713,6 @@ def shallow_copy(interp, x):
 def time_time(interp):
     t = CTX.fresh('wallclock', 'real')
     interp.reads_unlisted.append(('wall-clock', list(interp.call_stack)))
-    t.wallclock = True
     return t
 
 
@@ -1824,3 +1837,54 @@ def pathlib_path(interp, s):
 LIBATTR[('Path', 'parent')] = lambda interp, p: PathVal(p.s.rsplit('/', 1)[0] if '/' in p.s else '.')
 LIBATTR[('Path', 'resolve')] = lambda interp, p: (lambda i2: p)
 LIB['builtins.str'] = (lambda old: (lambda interp, x='': x.s if isinstance(x, PathVal) else old(interp, x)))(LIB['builtins.str'])
+
+
+# astropy.stats / astropy.time (trusted) ------------------------------------------------------------------
+
+@lib('astropy.stats.sigma_clip')
+def sigma_clip(interp, data, **kw):
+    """Trusted: returns (masked=False) a 1-D array of a subset of the input's elements."""
+    data = _as_arr(data)
+    flat = A.reshape(data, (data.size(),)) if data.ndim != 1 else data
+    n = CTX.fresh('nclip', 'int')
+    CTX.side.append(And(n >= 0, n <= flat.shape[0], Implies(Sym.lift(flat.shape[0]) >= 1, n >= 1)).t)
+    CTX.counter += 1
+    sel = z3.Function(f"clipsel!{CTX.counter}", z3.IntSort(), z3.IntSort())
+    snap = flat._snapshot()
+
+    def fn(idx):
+        j = Sym(sel(Sym.lift(idx[0]).as_int()), 'int')
+        return snap((j,))
+    return SArr((n,), fn, 'real')
+
+
+@lib('astropy.time.Time')
+def astropy_time(interp, val, format=None, **kw):
+    return TimeVal(val, format)
+
+
+class TimeVal:
+    type_tag = 'Time'
+
+    def __init__(self, val, fmt):
+        self.val, self.fmt = val, fmt
+
+
+def _time_unix(interp, t):
+    if t.fmt == 'unix':
+        return t.val
+    if t.fmt == 'mjd':
+        return (t.val - 40587) * 86400
+    raise Unsupported("Time format")
+
+
+def _time_mjd(interp, t):
+    if t.fmt == 'mjd':
+        return t.val
+    if t.fmt == 'unix':
+        return t.val / 86400 + 40587
+    raise Unsupported("Time format")
+
+
+LIBATTR[('Time', 'unix')] = _time_unix
+LIBATTR[('Time', 'mjd')] = _time_mjd
